@@ -107,3 +107,200 @@ package dnssec
 //@   nosafety all pre
 //@   assert at call internal/dnsutil.NameInZone#1: sameslice(arg1, signerZone)
 //@   assert at mapupdate#1: lastret("internal/dnsutil.NameInZone")
+//@
+//@ # ---- C02: NSEC denial.
+//@ # interval cover in canonical order, wrap-around at the apex and the single-name zone included
+//@ func canonicalNameCompare
+//@   modifies nothing
+//@   ensures result == canonCmp(a, b)
+//@ func nsecCovers
+//@   modifies nothing
+//@   ensures canonCmp(owner, next) == 0 ==> result == (canonCmp(name, owner) != 0)
+//@   ensures canonCmp(owner, next) < 0 ==> result == (canonCmp(name, owner) > 0 && canonCmp(name, next) < 0)
+//@   ensures canonCmp(owner, next) > 0 ==> result == (canonCmp(name, owner) > 0 || canonCmp(name, next) < 0)
+//@
+//@ # the closest encloser is the LONGER of the suffixes the query name shares with the covering NSEC's owner and next
+//@ # name (both exist), capped to a proper ancestor of the query name
+//@ func closestEncloserFromNSEC
+//@   abstract
+//@   nosafety all pre
+//@   assert at call github.com/miekg/dns.PrevLabel#1: arg1 == min(max(lastret("middleware/resolver/dnssec.closestEncloserFromNSEC$1#1"), lastret("middleware/resolver/dnssec.closestEncloserFromNSEC$1#2")), lastret("github.com/miekg/dns.CountLabel") - 1) && arg1 > 0
+//@   assert at call middleware/resolver/dnssec.closestEncloserFromNSEC$1#1: arg0 == nsec.Hdr.Name
+//@   assert at call middleware/resolver/dnssec.closestEncloserFromNSEC$1#2: arg0 == nsec.NextDomain
+//@
+//@ # NXDOMAIN from NSEC: success only with an NSEC covering the (DNAME-substituted) query name AND, unless the closest
+//@ # encloser is the root, an NSEC covering the wildcard at the closest encloser derived from that covering record
+//@ func VerifyNameErrorNSEC
+//@   abstract
+//@   nosafety all pre
+//@   assert at call middleware/resolver/dnssec.nsecCovers#1: arg2 == qname
+//@   assert at call middleware/resolver/dnssec.closestEncloserFromNSEC#1: lastret("middleware/resolver/dnssec.nsecCovers#1") && arg0 == qname && arg1 == covering
+//@   assert at call middleware/resolver/dnssec.nsecCovers#2: arg2 == wildcard
+//@   assert at return#4: lastret("middleware/resolver/dnssec.nsecCovers#1") && result == nil && lastret("middleware/resolver/dnssec.closestEncloserFromNSEC") == "."
+//@   assert at return#5: lastret("middleware/resolver/dnssec.nsecCovers#1") && lastret("middleware/resolver/dnssec.nsecCovers#2") && result == nil
+//@   assert at return#1: result != nil
+//@   assert at return#2: result != nil
+//@   assert at return#3: result != nil
+//@   assert at return#6: result != nil
+//@
+//@ # insecure delegation from NSEC: success only on an NSEC owned by the delegation name whose bitmap has NS and neither DS nor SOA
+//@ func VerifyDelegationNSEC
+//@   abstract
+//@   nosafety all pre
+//@   assert at call middleware/resolver/dnssec.typesSet#1: arg0 == nsec.TypeBitMap && len(arg1) == 1 && arg1[0] == dns.TypeNS
+//@   assert at call middleware/resolver/dnssec.typesSet#2: arg0 == nsec.TypeBitMap && len(arg1) == 2 && arg1[0] == dns.TypeDS && arg1[1] == dns.TypeSOA
+//@   assert at return#3: result == nil && lastret("middleware/resolver/dnssec.typesSet#1") && !lastret("middleware/resolver/dnssec.typesSet#2")
+//@   assert at return#1: result != nil
+//@   assert at return#2: result != nil
+//@   assert at return#4: result != nil
+//@
+//@ # NODATA from NSEC: success only on an NSEC at the exact name whose bitmap has neither the query type nor CNAME
+//@ # (and no SOA for a DS query), or on the wildcard form: a covering NSEC plus such an NSEC at *.closest-encloser
+//@ func VerifyNODATANSEC
+//@   abstract
+//@   nosafety all pre
+//@   assert at call middleware/resolver/dnssec.typesSet#1: arg0 == nsec.TypeBitMap && len(arg1) == 2 && arg1[0] == q.Qtype && arg1[1] == dns.TypeCNAME
+//@   assert at call middleware/resolver/dnssec.typesSet#2: arg0 == nsec.TypeBitMap && len(arg1) == 1 && arg1[0] == dns.TypeSOA
+//@   assert at return#4: result == nil && !lastret("middleware/resolver/dnssec.typesSet#1") && (q.Qtype == dns.TypeDS ==> !lastret("middleware/resolver/dnssec.typesSet#2"))
+//@   assert at call middleware/resolver/dnssec.nsecCovers#1: arg2 == qname
+//@   assert at call middleware/resolver/dnssec.closestEncloserFromNSEC#1: lastret("middleware/resolver/dnssec.nsecCovers#1") && arg0 == qname && arg1 == covering
+//@   assert at call middleware/resolver/dnssec.typesSet#3: arg0 == nsec.TypeBitMap && len(arg1) == 2 && arg1[0] == q.Qtype && arg1[1] == dns.TypeCNAME
+//@   assert at call middleware/resolver/dnssec.typesSet#4: arg0 == nsec.TypeBitMap && len(arg1) == 1 && arg1[0] == dns.TypeSOA
+//@   assert at return#9: result == nil && lastret("middleware/resolver/dnssec.nsecCovers#1") && !lastret("middleware/resolver/dnssec.typesSet#3") && (q.Qtype == dns.TypeDS ==> !lastret("middleware/resolver/dnssec.typesSet#4"))
+//@   assert at return#1: result != nil
+//@   assert at return#2: result != nil
+//@   assert at return#3: result != nil
+//@   assert at return#5: result != nil
+//@   assert at return#6: result != nil
+//@   assert at return#7: result != nil
+//@   assert at return#8: result != nil
+//@   assert at return#10: result != nil
+//@
+//@ # typesSet(set, types...) is true exactly when some listed type occurs in the bitmap's type list
+//@ func typesSet
+//@   modifies nothing
+//@   loop 1 invariant forall x uint16 :: {has(tm, x)} has(tm, x) ==> exists j int :: {types[j]} 0 <= j && j < rangeidx && types[j] == x
+//@   loop 1 invariant forall j int :: {types[j]} 0 <= j && j < rangeidx ==> has(tm, types[j])
+//@   loop 2 invariant forall x uint16 :: {has(tm, x)} has(tm, x) ==> exists j int :: {types[j]} 0 <= j && j < len(types) && types[j] == x
+//@   loop 2 invariant forall j int :: {types[j]} 0 <= j && j < len(types) ==> has(tm, types[j])
+//@   loop 2 invariant forall i int :: {set[i]} 0 <= i && i < rangeidx ==> !has(tm, set[i])
+//@   ensures result ==> exists i int, j int :: {set[i], types[j]} 0 <= i && i < len(set) && 0 <= j && j < len(types) && set[i] == types[j]
+//@   ensures (exists i int, j int :: {set[i], types[j]} 0 <= i && i < len(set) && 0 <= j && j < len(types) && set[i] == types[j]) ==> result
+//@
+//@ # NSEC3 ring preparation (abstracting tier): a record joins the ring only if its algorithm/flags are known, its class
+//@ # equals the ring's single class, its owner is exactly one label below the ring's zone, and its
+//@ # (hash, iterations, salt) tuple equals the ring's single parameter tuple; otherwise the whole set is refused
+//@ func prepareNSEC3Set
+//@   abstract
+//@   nosafety all pre
+//@   assert at append#2: lastret("middleware/resolver/dnssec.nsec3Safe")
+//@   assert at append#2: lastret("(middleware/resolver/dnssec.aggressiveCanonicalName).isSubdomainOf") && len(owner.labels) == len(result.zone.labels) + 1
+//@   assert at append#2: current.hash == parameters.hash && current.iterations == parameters.iterations
+//@
+//@ # ring lookup: a name never has both a matching and a covering record, and never two covering records (error instead)
+//@ func (*nsec3RingEvaluator).lookup
+//@   abstract
+//@   nosafety all pre
+//@   assert at return#4: result2 == nil && !(result0 != nil && result1 != nil)
+//@   assert at return#2: result2 != nil && result0 == nil && result1 == nil
+//@   assert at return#3: result2 != nil && result0 == nil && result1 == nil
+//@
+//@ func findMatchingWithWork
+//@   abstract
+//@   nosafety all pre
+//@   assert at return#2: result1 == nil && lastret("(*middleware/resolver/dnssec.nsec3RingEvaluator).lookup") != nil && lastret("(*middleware/resolver/dnssec.nsec3RingEvaluator).lookup", 2) == nil
+//@   assert at return#1: result1 != nil
+//@   assert at return#3: result1 != nil
+//@   assert at call (*middleware/resolver/dnssec.nsec3RingEvaluator).lookup#1: arg0 == evaluator && arg1 == name
+//@
+//@ func findCovererWithWork
+//@   abstract
+//@   nosafety all pre
+//@   assert at return#2: result2 == nil && lastret("(*middleware/resolver/dnssec.nsec3RingEvaluator).lookup", 1) != nil && lastret("(*middleware/resolver/dnssec.nsec3RingEvaluator).lookup", 2) == nil
+//@   assert at return#1: result2 != nil
+//@   assert at return#3: result2 != nil
+//@   assert at call (*middleware/resolver/dnssec.nsec3RingEvaluator).lookup#1: arg0 == evaluator && arg1 == name
+//@
+//@ # a closest encloser that is a DNAME owner or a delegation point (NS without SOA) cannot carry a denial
+//@ func validateNSEC3ClosestEncloser
+//@   abstract
+//@   nosafety all pre
+//@   assert at return#3: result == nil && proof.name != "" && !lastret("middleware/resolver/dnssec.typesSet#1") && (!lastret("middleware/resolver/dnssec.typesSet#2") || lastret("middleware/resolver/dnssec.typesSet#3"))
+//@   assert at return#1: result != nil
+//@   assert at return#2: result != nil
+//@   assert at call middleware/resolver/dnssec.typesSet#1: arg0 == proof.types && len(arg1) == 1 && arg1[0] == dns.TypeDNAME
+//@   assert at call middleware/resolver/dnssec.typesSet#2: arg0 == proof.types && len(arg1) == 1 && arg1[0] == dns.TypeNS
+//@   assert at call middleware/resolver/dnssec.typesSet#3: arg0 == proof.types && len(arg1) == 1 && arg1[0] == dns.TypeSOA
+//@
+//@ # NSEC3 NXDOMAIN: the ring must be for the question's class and the validated signer; success needs a valid closest
+//@ # encloser, a cover of the next-closer name and a cover of the wildcard at the closest encloser; the verdict is
+//@ # "secure" only if the next-closer cover is not an opt-out span
+//@ func VerifyNameErrorForZoneWithWork
+//@   abstract
+//@   nosafety all pre
+//@   assert at call middleware/resolver/dnssec.prepareNSEC3Set#1: arg0 == nsec && arg1 == signer
+//@   assert at call middleware/resolver/dnssec.verifyNameErrorWithRing#1: lastret("middleware/resolver/dnssec.prepareNSEC3Set", 1) == nil && arg0 == msg && prepared.qclass == msg.Question[0].Qclass
+//@   assert at call middleware/resolver/dnssec.newNSEC3RingEvaluator#1: arg1 == work
+//@
+//@ func verifyNameErrorWithRing
+//@   abstract
+//@   nosafety all pre
+//@   assert at call middleware/resolver/dnssec.findClosestEncloserWithWork#1: arg0 == qname && arg1 == evaluator
+//@   assert at call middleware/resolver/dnssec.findCovererWithWork#1: arg0 == closest.nextCloser && arg1 == evaluator && lastret("middleware/resolver/dnssec.validateNSEC3ClosestEncloser") == nil
+//@   assert at call middleware/resolver/dnssec.findCovererWithWork#2: arg1 == evaluator
+//@   assert at return#5: result1 == nil && lastret("middleware/resolver/dnssec.validateNSEC3ClosestEncloser") == nil && lastret("middleware/resolver/dnssec.findCovererWithWork#1", 2) == nil && lastret("middleware/resolver/dnssec.findCovererWithWork#2", 2) == nil && result0 == !lastret("middleware/resolver/dnssec.findCovererWithWork#1", 1)
+//@   assert at return#1: result1 != nil && !result0
+//@   assert at return#2: result1 != nil && !result0
+//@   assert at return#3: result1 != nil && !result0
+//@   assert at return#4: result1 != nil && !result0
+//@
+//@ # NSEC3 NODATA: exact-owner form (bitmap lacks the query type and CNAME; no SOA for DS), the DS opt-out form (NEVER
+//@ # secure), or the wildcard form (next-closer cover plus wildcard match lacking the type); secure only without opt-out
+//@ func VerifyNODATAForZoneWithWork
+//@   abstract
+//@   nosafety all pre
+//@   assert at call middleware/resolver/dnssec.prepareNSEC3Set#1: arg0 == nsec && arg1 == signer
+//@   assert at call middleware/resolver/dnssec.newNSEC3RingEvaluator#1: prepared.qclass == q.Qclass && arg1 == work && lastret("middleware/resolver/dnssec.prepareNSEC3Set", 1) == nil
+//@   assert at call middleware/resolver/dnssec.typesSet#1: arg0 == lastret("middleware/resolver/dnssec.findMatchingWithWork#1") && len(arg1) == 2 && arg1[0] == q.Qtype && arg1[1] == dns.TypeCNAME
+//@   assert at call middleware/resolver/dnssec.typesSet#3: arg0 == lastret("middleware/resolver/dnssec.findMatchingWithWork#2") && len(arg1) == 2 && arg1[0] == q.Qtype && arg1[1] == dns.TypeCNAME
+//@   assert at return#5: result0 && result1 == nil && lastret("middleware/resolver/dnssec.findMatchingWithWork#1", 1) == nil && !lastret("middleware/resolver/dnssec.typesSet#1") && (q.Qtype == dns.TypeDS ==> !lastret("middleware/resolver/dnssec.typesSet#2"))
+//@   assert at return#11: !result0 && result1 == nil && q.Qtype == dns.TypeDS && lastret("middleware/resolver/dnssec.validateNSEC3ClosestEncloser") == nil && lastret("middleware/resolver/dnssec.findCovererWithWork#1", 1) && lastret("middleware/resolver/dnssec.findCovererWithWork#1", 2) == nil
+//@   assert at return#15: result1 == nil && lastret("middleware/resolver/dnssec.validateNSEC3ClosestEncloser") == nil && lastret("middleware/resolver/dnssec.findCovererWithWork#2", 2) == nil && lastret("middleware/resolver/dnssec.findMatchingWithWork#2", 1) == nil && !lastret("middleware/resolver/dnssec.typesSet#3") && result0 == !lastret("middleware/resolver/dnssec.findCovererWithWork#2", 1)
+//@   assert at return#1: result1 != nil && !result0
+//@   assert at return#2: result1 != nil && !result0
+//@   assert at return#3: result1 != nil && !result0
+//@   assert at return#4: result1 != nil && !result0
+//@   assert at return#6: result1 != nil && !result0
+//@   assert at return#7: result1 != nil && !result0
+//@   assert at return#8: result1 != nil && !result0
+//@   assert at return#9: result1 != nil && !result0
+//@   assert at return#10: result1 != nil && !result0
+//@   assert at return#12: result1 != nil && !result0
+//@   assert at return#13: result1 != nil && !result0
+//@   assert at return#14: result1 != nil && !result0
+//@
+//@ # insecure delegation from NSEC3: exact match with NS and neither DS nor SOA, or an opt-out cover of the next-closer
+//@ # name under a valid closest encloser; bound to the caller's signer zone
+//@ func VerifyDelegationForZoneWithWork
+//@   abstract
+//@   nosafety all pre
+//@   assert at call middleware/resolver/dnssec.prepareNSEC3Set#1: arg0 == nsec && arg1 == signer
+//@   assert at call middleware/resolver/dnssec.findMatchingWithWork#1: arg0 == delegation
+//@   assert at call middleware/resolver/dnssec.verifyDelegationTypes#1: arg0 == lastret("middleware/resolver/dnssec.findMatchingWithWork") && lastret("middleware/resolver/dnssec.findMatchingWithWork", 1) == nil
+//@   assert at return#7: result == nil && lastret("middleware/resolver/dnssec.validateNSEC3ClosestEncloser") == nil && lastret("middleware/resolver/dnssec.findCovererWithWork", 1) && lastret("middleware/resolver/dnssec.findCovererWithWork", 2) == nil
+//@   assert at return#8: result == lastret("middleware/resolver/dnssec.verifyDelegationTypes")
+//@   assert at return#1: result != nil
+//@   assert at return#2: result != nil
+//@   assert at return#3: result != nil
+//@   assert at return#4: result != nil
+//@   assert at return#5: result != nil
+//@   assert at return#6: result != nil
+//@
+//@ func verifyDelegationTypes
+//@   abstract
+//@   nosafety all pre
+//@   assert at call middleware/resolver/dnssec.typesSet#1: arg0 == types && len(arg1) == 1 && arg1[0] == dns.TypeNS
+//@   assert at call middleware/resolver/dnssec.typesSet#2: arg0 == types && len(arg1) == 2 && arg1[0] == dns.TypeDS && arg1[1] == dns.TypeSOA
+//@   assert at return#3: result == nil && lastret("middleware/resolver/dnssec.typesSet#1") && !lastret("middleware/resolver/dnssec.typesSet#2")
+//@   assert at return#1: result != nil
+//@   assert at return#2: result != nil
